@@ -33,6 +33,8 @@ static struct {
     int handlers, hret, burst, bsize, term, reqret, raw;
 } cfg;
 static int reply_counter = 0;
+/* a well-behaved peer kept by the harness: how many I-frames it has sent / has seen from the server */
+static int peer_ns[MAXC], peer_seen[MAXC];
 
 static void cfg_default(void)
 {
@@ -119,7 +121,10 @@ static void drain(void)
     for (int i = 0; i < nsocks; i++) {
         if (!socks[i]) continue;
         int n = Sim_takeTx(socks[i], buf, sizeof buf);
-        if (n > 0) { printf("tx c%d ", i); puthex(buf, n); printf("\n"); }
+        if (n > 0) {
+            printf("tx c%d ", i); puthex(buf, n); printf("\n");
+            for (int p = 0; p + 2 <= n; p += 2 + buf[p + 1]) { if (p + 2 < n && (buf[p + 2] & 1) == 0 && buf[p + 1] >= 4) peer_seen[i] = (peer_seen[i] + 1) % 32768; if (buf[p + 1] == 0) break; }
+        }
     }
     if (sim_sem_errors) { printf("sem %d %s\n", sim_sem_errors, sim_sem_error_text); sim_sem_errors = 0; }
 }
@@ -222,7 +227,7 @@ int main(void)
         else if (!strcmp(cmd, "destroy")) { if (slave) { CS104_Slave_destroy(slave); slave = NULL; ngroups = 0; } }
         else if (!strcmp(cmd, "connect")) {
             int ci; char peer[64]; sscanf(line, "%*s c%d %63s", &ci, peer);
-            if (ci >= 0 && ci < MAXC) { socks[ci] = Sim_newPeer(peer); if (ci >= nsocks) nsocks = ci + 1; }
+            if (ci >= 0 && ci < MAXC) { socks[ci] = Sim_newPeer(peer); if (ci >= nsocks) nsocks = ci + 1; peer_ns[ci] = 0; peer_seen[ci] = 0; }
         }
         else if (!strcmp(cmd, "tick")) {
             int n = 1; sscanf(line, "%*s %d", &n);
@@ -235,6 +240,25 @@ int main(void)
         else if (!strcmp(cmd, "rx")) {
             int ci; static char hex[66000]; static uint8_t b[33000]; sscanf(line, "%*s c%d %65999s", &ci, hex);
             if (ci >= 0 && ci < nsocks && socks[ci]) { int n = unhex(hex, b); Sim_feed(socks[ci], b, n); }
+        }
+        else if (!strcmp(cmd, "rxi") || !strcmp(cmd, "rxs")) {
+            /* peer frame with sequence numbers filled in by the harness' peer bookkeeping:
+               rxi c<i> <asdu-hex> [dns] [dnr]   I-frame, N(S) = sent so far + dns, N(R) = seen so far + dnr
+               rxs c<i> [dnr]                    S-frame, N(R) = seen so far + dnr (dnr <= 0 acknowledges a prefix) */
+            int ci = 0, d1 = 0, d2 = 0; static char hex[1024]; static uint8_t f[300]; int n = 0;
+            if (!strcmp(cmd, "rxi")) { sscanf(line, "%*s c%d %1023s %d %d", &ci, hex, &d1, &d2); n = unhex(hex, f + 6); }
+            else { sscanf(line, "%*s c%d %d", &ci, &d2); }
+            if (ci >= 0 && ci < nsocks && socks[ci]) {
+                int nr = ((peer_seen[ci] + d2) % 32768 + 32768) % 32768;
+                f[0] = 0x68; f[4] = (uint8_t) ((nr % 128) * 2); f[5] = (uint8_t) (nr / 128);
+                if (!strcmp(cmd, "rxi")) {
+                    int ns = ((peer_ns[ci] + d1) % 32768 + 32768) % 32768;
+                    f[1] = (uint8_t) (4 + n); f[2] = (uint8_t) ((ns % 128) * 2); f[3] = (uint8_t) (ns / 128);
+                    if (d1 == 0) peer_ns[ci] = (peer_ns[ci] + 1) % 32768;
+                    Sim_feed(socks[ci], f, 6 + n);
+                }
+                else { f[1] = 4; f[2] = 1; f[3] = 0; Sim_feed(socks[ci], f, 6); }
+            }
         }
         else if (!strcmp(cmd, "enq")) {
             static char hex[1024]; sscanf(line, "%*s %1023s", hex);
@@ -250,7 +274,7 @@ int main(void)
         else if (!strcmp(cmd, "appclose")) { int ci; sscanf(line, "%*s c%d", &ci); MasterConnection mc = con_of(ci); if (mc) IMasterConnection_close(&mc->iMasterConnection); }
         else if (!strcmp(cmd, "poke")) {
             int ci, vs, vr; sscanf(line, "%*s c%d vs=%d vr=%d", &ci, &vs, &vr);
-            MasterConnection mc = con_of(ci); if (mc) { mc->sendCount = (uint16_t) vs; mc->receiveCount = (uint16_t) vr; }
+            MasterConnection mc = con_of(ci); if (mc) { mc->sendCount = (uint16_t) vs; mc->receiveCount = (uint16_t) vr; peer_seen[ci] = vs; peer_ns[ci] = vr; }
         }
         else if (!strcmp(cmd, "dump")) dump();
         else printf("? %s", line);
